@@ -112,6 +112,13 @@ func (r *Run) opAuthorize(st Step) {
 	if pk := st.p("pkce"); pk != "" {
 		r.verifierN++
 		verifier = r.verifier(r.verifierN)
+		if strings.HasSuffix(pk, ":malformed") {
+			// the client derives its challenge from a verifier that is NOT well-formed (right length, a forbidden character later on)
+			bad := []string{"/", "=", "+", " ", ":", "@", "!", "|"}
+			verifier = verifier[:20] + bad[r.verifierN%len(bad)] + verifier[21:]
+			pk = strings.TrimSuffix(pk, ":malformed")
+			r.probe("pkce-challenge-from-malformed-verifier")
+		}
 		switch pk {
 		case "S256":
 			challenge, method = s256(verifier), "S256"
